@@ -234,11 +234,20 @@ def r04_2(run):
 def r04_3(run):
     rc = U(run, '_read_cookie')
     g = cfg_of(rc)
-    key = 'len(self._cookie_data)'
-    found = any(isinstance(n, ast.Compare) and key in src(n) for n in walk_unit(rc))
+    # the cookie may be held in a local that is stored into self._cookie_data (or read back from it): the same value
+    defs0 = local_defs(rc)
+    holders = ['self._cookie_data']
+    for _, v in writes_of(rc, 'self._cookie_data'):
+        if isinstance(v, ast.Name):
+            holders.append(v.id)
+    for nm, ds in defs0.items():
+        if any(len(d) > 1 and isinstance(d[1], ast.AST) and dotted(d[1]) == 'self._cookie_data' for d in ds):
+            holders.append(nm)
+    keys = ['len(%s)' % h for h in holders]
+    found = any(isinstance(n, ast.Compare) and any(k in src(n) for k in keys) for n in walk_unit(rc))
     run.ob('R04.3', rc, rc.node, 'cookie length is tested', found, slot='len-test', message='_read_cookie no longer tests len(self._cookie_data)')
     for ln in (0, 31, 32, 33, 64):
-        paths = g.paths(eval_hook=hook_for_env({key: ln}, frozen_after_write=False))
+        paths = g.paths(eval_hook=hook_for_env(dict((k, ln) for k in keys), frozen_after_write=False))
         run.paths_enumerated += len(paths)
         for p in paths:
             if ln == 32:
@@ -256,7 +265,7 @@ def r04_3(run):
                        message='_read_cookie accepts a %d-byte cookie (or refuses it with %s, which the caller treats as "unreadable")' % (ln, kind))
     # the data tested is the data read from the file given
     ws = writes_of(rc, 'self._cookie_data')
-    rd = [v for _, v in ws if not is_none(v)]
+    rd = [c01._resolve_name(defs0, v) for _, v in ws if not is_none(v)]
     ok = len(rd) == 1 and 'open(' in src(rd[0]) and rc.params[1] in src(rd[0]) and '.read(' in src(rd[0])
     run.ob('R04.3', rc, rc.node, 'cookie data is the content of the named file', ok, slot='cookie-source',
            message='self._cookie_data is not read from the cookie file argument: %s' % [src(v) for v in rd])
@@ -644,6 +653,7 @@ MUTANTS = [
     M('cookie-path-not-unescaped', F, "                cookiefile = unescape_quoted_string(cookiefile)\n", "                cookiefile = cookiefile[1:-1]\n", ['R04.6']),
 ]
 TWINS = [
+    M('cookie-via-local', F, "        self._cookie_data = open(cookiefile, 'rb').read()\n        if len(self._cookie_data) != 32:", "        cookie = open(cookiefile, 'rb').read()\n        self._cookie_data = cookie\n        if len(cookie) != 32:"),
     M('elif-to-if-after-return', F, "            elif 'COOKIE' in methods:\n                txtorlog", "            if 'COOKIE' in methods:\n                txtorlog"),
     M('elif-to-nested', F, "            elif 'COOKIE' in methods:\n                txtorlog.msg(\"Using COOKIE authentication\",\n                             cookiefile, len(self._cookie_data), \"bytes\")\n                d = self.authenticate(self._cookie_data)\n                d.addCallback(self._bootstrap)\n                return d\n",
       "            else:\n                if 'COOKIE' in methods:\n                    d = self.authenticate(self._cookie_data)\n                    d.addCallback(self._bootstrap)\n                    return d\n"),
